@@ -335,6 +335,54 @@ func cadence(r *ev.Run, w *proch.World) {
 	}
 }
 
+// underTraffic: the REAL Run loop (its own timer or ticker on the virtual clock, fired only when due) while
+// other events keep arriving every g seconds, for every gap g of a small alphabet: the cleanup round must run
+// every 30 s whatever the traffic - the signed, still pending observation is re-broadcast with a
+// re-observation request between 5 min and 5 min 30 s + one gap after it was made, and again five minutes later.
+func underTraffic(r *ev.Run, w *proch.World) {
+	c := proch.Config{Name: "run-loop-under-traffic", Sets: [][]int{rng(0, 3)}, OwnKey: 0, Msgs: msgs()}
+	for _, gap := range []int{1, 7, 10, 29, 30, 31, 45} {
+		for _, traffic := range []string{"observations", "inbound-vaas", "none"} {
+			rn := w.NewRunNode(c.OwnKey)
+			rn.Deliver(c.Materialise(rn.Node, proch.Event{Kind: "set", Set: 0}))
+			first := rn.Deliver(c.Materialise(rn.Node, proch.Event{Kind: "msg", M: 0}))
+			if len(first.ObsRaw) != 1 {
+				ev.Broken("run-loop-under-traffic: the local observation was not signed")
+			}
+			own := first.ObsRaw[0]
+			var retries []int
+			reqs := 0
+			elapsed := 0
+			for elapsed < 11*60 {
+				out := rn.Elapse(time.Duration(gap) * time.Second)
+				elapsed += gap
+				var o2 proch.Out
+				switch traffic {
+				case "observations": // a valid observation of ANOTHER digest by a member
+					o2 = rn.Deliver(c.Materialise(rn.Node, proch.Event{Kind: "obs", G: 1, D: 2}))
+				case "inbound-vaas": // a signed VAA of another message from a peer
+					o2 = rn.Deliver(c.Materialise(rn.Node, proch.Event{Kind: "in", M: 1, InVar: 0, InSet: 0}))
+				}
+				for _, o := range []proch.Out{out, o2} {
+					for _, raw := range o.ObsRaw {
+						if bytes.Equal(raw, own) {
+							retries = append(retries, elapsed)
+						}
+					}
+					reqs += len(o.Reqs)
+				}
+			}
+			rn.Close()
+			r.Add("run_loop_traffic_scenarios", 1)
+			rec := map[string]interface{}{"gap_seconds": gap, "traffic": traffic, "retry_times_s": retries, "requests": reqs}
+			ok := len(retries) == 2 && retries[0] >= 300 && retries[0] <= 330+gap && retries[1]-retries[0] >= 300 && retries[1]-retries[0] <= 330+gap && reqs == 2
+			if !ok {
+				r.Violation("C14 run loop: with events arriving every few seconds the pending observation is not retried on the five-minute schedule", fmt.Sprintf("gap %d s, traffic %s: retries at %v s, %d re-observation requests (want 2 retries ~300 s apart, 2 requests in 11 min)", gap, traffic, retries, reqs), rec)
+			}
+		}
+	}
+}
+
 func main() {
 	r := ev.Start("C14", "model_checking")
 	if len(os.Args) > 2 && os.Args[1] == "--replay" {
@@ -364,6 +412,7 @@ func main() {
 		if i == 0 {
 			x.SelfTest([]proch.Event{{Kind: "set", Set: 0}, {Kind: "msg", M: 0}, {Kind: "lb", LB: 0}, {Kind: "tick", DtSec: 301}, {Kind: "tick", DtSec: 301}})
 			cadence(r, w)
+			underTraffic(r, w)
 		}
 		x.BFSFrom(j.Prefix, j.Depth, menu(j), 600000, nil)
 		r.Add("states", x.States)
